@@ -1,3 +1,3 @@
 From Coq Require Import ExtrOcamlBasic NArith.
 From CppUVerif Require Import C11_Model.
-Extraction "c11_model.ml" C11_Model.run C11_Model.spec C11_Model.valid.
+Extraction "c11_model.ml" C11_Model.run_m C11_Model.spec_m C11_Model.valid_m C11_Model.embed.
